@@ -334,6 +334,11 @@ pub fn run(env: &Env, run: &Run) -> (Stats, Coverage) {
             // ... and through a profile obtained from Default (the other public constructor)
             crate::subject::with_default_ctor(|| check_label(env, Prof::Ucp, &s, st));
         }
+        // the next scalar value right behind it (a cursor that walks the table entry by entry)
+        if let Some(nx) = (cp + 1..=0x10FFFF).find_map(char::from_u32) {
+            check_label(env, Prof::Ucm, &from_cps(&[cp, nx as u32]), st);
+            check_label(env, Prof::Ucm, &from_cps(&[nx as u32, cp]), st);
+        }
     }));
     // (b'') neighbour pairs: every assigned non-L code point b next to every other assigned code
     // point a of its own 256-block, as [a, b] and as [R, a, b, R] (lookup state carried from one
@@ -395,6 +400,47 @@ pub fn run(env: &Env, run: &Run) -> (Stats, Coverage) {
             let v = check_label(env, Prof::Ucm, s, st);
             count(v, st);
         }));
+    }
+    // (c'') two-symbol prefix + run + suffix over the classes that carry state through a label:
+    // [p, q] a^k [r] for every k up to 130 (what was seen before a long run must still count after it)
+    {
+        let rep = |n: &str| reps.iter().find(|(c, _)| c == n).map(|(_, ch)| *ch);
+        let cls: Vec<char> = ["R", "AL", "L", "EN", "AN", "NSM"].iter().filter_map(|n| rep(n)).collect();
+        let mut combos: Vec<(char, char, char, char)> = Vec::new();
+        for &p in &cls {
+            for &q in &cls {
+                for &a in &cls {
+                    for &r in &cls {
+                        combos.push((p, q, a, r));
+                    }
+                }
+            }
+        }
+        let shards: Vec<Stats> = {
+            use rayon::prelude::*;
+            combos
+                .par_iter()
+                .map(|&(p, q, a, r)| {
+                    let mut st = Stats::default();
+                    let mut s = String::new();
+                    s.push(p);
+                    s.push(q);
+                    for _k in 0..=run.tier.pick(130usize, 260usize) {
+                        s.push(r);
+                        st.states += 1;
+                        st.transitions += 1;
+                        let v = check_label(env, Prof::Ucm, &s, &mut st);
+                        count(v, &mut st);
+                        s.pop();
+                        s.push(a);
+                    }
+                    st
+                })
+                .collect()
+        };
+        for x in shards {
+            st.merge(x);
+        }
     }
     // (d) W-method conformance against the specification automaton
     let strict = run.is_known("bidi_interior_nsm").is_some();
